@@ -40,6 +40,36 @@ from lib import REPO, Result, response_j, run_driver, run_impl, same_outcome, td
 
 DRIVER = "kskm_driver_pkge"
 
+
+class Watchdog(Exception):
+    """The implementation did not return within the budget (the reader's attribute loop does not
+    terminate on text its regular expression does not match: finding F1 of C13)."""
+
+
+def guarded(fn: Any, seconds: float = 2.0) -> Any:
+    """Run `fn` under a SIGALRM watchdog; a timeout is reported as {"error": "timeout"} by run_impl."""
+    import signal
+
+    def on_alarm(signum: int, frame: Any) -> None:
+        raise Watchdog()
+
+    old = signal.signal(signal.SIGALRM, on_alarm)
+    signal.setitimer(signal.ITIMER_REAL, seconds)
+    try:
+        return fn()
+    finally:
+        signal.setitimer(signal.ITIMER_REAL, 0)
+        signal.signal(signal.SIGALRM, old)
+
+
+def read_back(text: str) -> Any:
+    from kskm.skr.load import response_from_xml
+
+    out = run_impl(lambda: guarded(lambda: response_from_xml(text)), conv=lambda x: x)
+    if out == {"error": "other"}:
+        return {"error": "timeout"}
+    return out
+
 ASSUMPTIONS = [
     "CPython 3.12 semantics of int(), datetime.fromisoformat, strftime('%Y') (glibc: unpadded), str.isspace, re — modelled, compared differentially on every run",
     "sys.get_int_max_str_digits() is the default 4300",
@@ -695,7 +725,7 @@ def response_from_j(j: dict[str, Any]) -> Any:
     return Response(id=j["id"], serial=j["serial"], domain=j["domain"], timestamp=None if j["timestamp"] is None else us_dt(j["timestamp"]), bundles=bundles, ksk_policy=pol(j["kskPolicy"]), zsk_policy=pol(j["zskPolicy"]))
 
 
-def judge_response(res: Result, tag: str, resp: Any, model_text: Any, model_tree: Any, *, real: bool, sample: bool = False) -> None:
+def judge_response(res: Result, tag: str, resp: Any, model_text: Any, model_tree: Any, *, real: bool, sample: bool = False) -> tuple[Any, Any]:
     """Property clauses (b)(c)(d) on the implementation + tie (a) for one response."""
     from kskm.common.config_misc import ResponsePolicy
     from kskm.skr.load import response_from_xml
@@ -720,12 +750,12 @@ def judge_response(res: Result, tag: str, resp: Any, model_text: Any, model_tree
             res.violation("emitted SKR: the writer fails on a response of its domain", case, key=f"writer:{impl_text}", impl=impl_text)
         else:
             res.bump("out-of-domain:writer-error")
-        return
+        return impl_text, None
     text = impl_text["ok"]
     if sample:
         res.sample({"tag": tag, "bundles": n, "text_head": text[:400], "text_len": len(text)})
     # (b) read back
-    back = run_impl(lambda: response_from_xml(text), conv=lambda x: x)
+    back = read_back(text)
     readback_ok = "ok" in back and back["ok"] == resp
     if dom:
         if not readback_ok:
@@ -780,6 +810,7 @@ def judge_response(res: Result, tag: str, resp: Any, model_text: Any, model_tree
                     res.disagreement("renderDoc (treeOf r) != implementation text", case, _clip(text), _clip(model_tree.get("render")), first_difference=_first_diff({"ok": text}, {"ok": model_tree.get("render")}))
         else:
             res.bump("out-of-domain:schema-" + ("ok" if not errs else "violated"))
+    return impl_text, back
 
 
 def _clip(x: Any, n: int = 1500) -> Any:
@@ -850,7 +881,7 @@ def truncation(res: Result, tag: str, resp: Any, policy_bundles: int) -> None:
     for k in range(len(data)):
         prefix = data[:k]
         has_end = b"</KSR>" in prefix
-        out = run_impl(lambda: load_like_load_skr(prefix, policy_bundles), conv=lambda x: x)
+        out = run_impl(lambda: guarded(lambda: load_like_load_skr(prefix, policy_bundles)), conv=lambda x: x)
         res.evaluations += 1
         if "ok" in out:
             if out["ok"] == resp:
@@ -888,8 +919,10 @@ def iso_duration_spec(s: str) -> Any:
     w, mon, monflag, d, h, mi, sec = m.groups()
     if monflag:
         return "months"
+    if max(len(x or "") for x in (w, d, h, mi, sec)) > 4300:
+        return None
     tot = (((int(w or 0) * 7 + int(d or 0)) * 24 + int(h or 0)) * 60 + int(mi or 0)) * 60 + int(sec or 0)
-    if tot // 86400 > 999999999 or max(len(x or "") for x in (w, d, h, mi, sec)) > 4300:
+    if tot // 86400 > 999999999 or max(int(x or 0) * u for x, u in ((w, 7), (d, 1), (h, 0), (mi, 0), (sec, 0))) > 999999999:
         return None
     return tot * SEC
 
@@ -1265,10 +1298,10 @@ def run(tier: str, driver_ok: bool) -> Result:
     model = run_driver(lines, exe=DRIVER) if driver_ok else [None] * len(lines)
     for idx, (tag, resp, real, force_key) in enumerate(pending):
         m_text, m_tree = model[idx], model[n_resp + idx]
-        judge_response(res, tag, resp, m_text, m_tree if isinstance(m_tree, dict) else None, real=real, sample=(idx in (0, 11)))
+        w, back = judge_response(res, tag, resp, m_text, m_tree if isinstance(m_tree, dict) else None, real=real, sample=(idx in (0, 11)))
         dom, why = in_domain(resp)
         if not dom:
-            _note_witness(res, tag, resp, why, force_key)
+            _note_witness(res, tag, resp, why, force_key, w, back)
 
     # (e) truncation: three files (every byte offset)
     r2 = lib.rng("C11:trunc")
@@ -1288,17 +1321,12 @@ def run(tier: str, driver_ok: bool) -> Result:
     return res
 
 
-def _note_witness(res: Result, tag: str, resp: Any, why: str, force_key: str | None) -> None:
+def _note_witness(res: Result, tag: str, resp: Any, why: str, force_key: str | None, w: Any, back: Any) -> None:
     """Outside the writer's domain: record what the implementation does (not a violation), except the
     signer-reachable multi-line key text (F6) which is reported."""
-    from kskm.skr.load import response_from_xml
-    from kskm.skr.output import skr_to_xml
-
-    w = run_impl(lambda: skr_to_xml(resp), conv=lambda x: x)
     if "ok" not in w:
         res.notes.append(f"boundary {tag} [{why}]: writer raises {w}")
         return
-    back = run_impl(lambda: response_from_xml(w["ok"]), conv=lambda x: x)
     same = "ok" in back and back["ok"] == resp
     try:
         ET.fromstring(w["ok"].encode("utf-8", "surrogatepass"))
